@@ -30,7 +30,7 @@ RULE = (
     "universes and 2-3 free law sets plus None, starting from every initial configuration "
     "(universe built with default laws or given one of the law sets, possibly one already "
     "given to another universe); bounded-exhaustive over all sequences up to the stated "
-    "length for the 2x2 pool, Hypothesis beyond it (there also: assignments in the item spelling obj['laws'] = x, and universes that are linked as vertices of an outer graph).  After every step the bijection "
+    "length for the 2x2 pool, Hypothesis beyond it (there also: assignments in the item spelling obj['laws'] = x, universes that are linked as vertices of an outer graph, assignments issued 300 times in a row, and a chain of universes nested 3500 levels deep inside the first universe).  After every step the bijection "
     "`u.laws is L <=> L.applies_to is u` is checked for ALL pairs including displaced "
     "default law sets.  Plus constructor read-back/immutability cases for the rule "
     "attributes.  Non-trivial = some step moves a law set that is in use elsewhere, or "
